@@ -329,7 +329,7 @@ Proof.
   - pose proof (items_ok_len l key x Hl Hk) as Hlen.
     destruct (rev x) as [|a r] eqn:Hr.
     + destruct Hag as [Hitem Herr]. cbn [fst snd] in Hitem, Herr.
-      assert (Hnil : err_is_nil err = false) by (destruct err; [congruence|reflexivity|reflexivity]).
+      assert (Hnil : err_is_nil err = false) by (destruct err; [congruence|reflexivity..]).
       rewrite Hnil. cbn [negb fst snd]. rewrite go_List_eta.
       eexists. split; [reflexivity|]. split; [exact Hitem|exact Herr].
     + injection Hag as Hitem Herr. subst item err size. cbn [err_is_nil negb].
@@ -341,7 +341,7 @@ Proof.
       rewrite zslice_init. cbn [gbind app fst snd]. unfold set_List_Items.
       eexists. split; [reflexivity|]. reflexivity.
   - destruct Hag as [Hitem Herr]. cbn [fst snd] in Hitem, Herr.
-    assert (Hnil : err_is_nil err = false) by (destruct err; [congruence|reflexivity|reflexivity]).
+    assert (Hnil : err_is_nil err = false) by (destruct err; [congruence|reflexivity..]).
     rewrite Hnil. cbn [negb fst snd]. rewrite go_List_eta.
     eexists. split; [reflexivity|]. split; [exact Hitem|exact Herr].
 Qed.
@@ -395,7 +395,7 @@ Proof.
   rewrite Hpeek. cbn [gbind]. unfold l_lpeek in Hag. unfold l_lpop.
   destruct (alookup (List_Items l) key) as [[|a r]|] eqn:Hk.
   - destruct Hag as [Hitem Herr]. cbn [fst snd] in Hitem, Herr.
-    assert (Hnil : err_is_nil err = false) by (destruct err; [congruence|reflexivity|reflexivity]).
+    assert (Hnil : err_is_nil err = false) by (destruct err; [congruence|reflexivity..]).
     rewrite Hnil. cbn [negb fst snd]. rewrite go_List_eta.
     eexists. split; [reflexivity|]. split; [exact Hitem|exact Herr].
   - injection Hag as Hitem Herr. subst item err. cbn [err_is_nil negb].
@@ -405,7 +405,7 @@ Proof.
     rewrite zslice_tail. cbn [gbind app fst snd]. unfold set_List_Items.
     eexists. split; reflexivity.
   - destruct Hag as [Hitem Herr]. cbn [fst snd] in Hitem, Herr.
-    assert (Hnil : err_is_nil err = false) by (destruct err; [congruence|reflexivity|reflexivity]).
+    assert (Hnil : err_is_nil err = false) by (destruct err; [congruence|reflexivity..]).
     rewrite Hnil. cbn [negb fst snd]. rewrite go_List_eta.
     eexists. split; [reflexivity|]. split; [exact Hitem|exact Herr].
 Qed.
@@ -500,7 +500,7 @@ Proof.
       rewrite gslice3_000. cbn [gbind app fst snd]. unfold set_List_Items.
       eexists. split; [reflexivity|]. split; reflexivity.
     + destruct Hag as [_ Herr]. cbn [snd] in Herr.
-      assert (Hnil : err_is_nil err = false) by (destruct err; [congruence|reflexivity|reflexivity]).
+      assert (Hnil : err_is_nil err = false) by (destruct err; [congruence|reflexivity..]).
       rewrite Hnil. cbn [negb fst snd]. rewrite go_List_eta.
       eexists. split; [reflexivity|]. split; [discriminate | intros H; contradiction].
   - rewrite (has_key_none _ _ Hk). cbn [negb fst snd]. rewrite go_List_eta.
